@@ -29,6 +29,7 @@ type harness struct {
 	model *hx.Model
 	// statistics
 	syncCache map[string]*engine.Observed
+	failed    map[string]int
 }
 
 type verdict struct {
@@ -167,8 +168,13 @@ func (h *harness) record(c *engine.Case, v verdict, source string) {
 		h.run.Oblige("harness self-consistency (generated schema/document accepted)", "oracle", 1, false, v.What)
 		return
 	}
-	// shrink while the failure class stays the same
+	// shrink while the failure class stays the same (only for the first few failures of a class)
 	want := v.key()
+	h.failed[want]++
+	if h.failed[want] > 3 {
+		h.run.Violate(v.Class, fmt.Sprintf("%s: %s  [document %s]", v.Cat, v.What, c.Document()), "", v.Class == "correspondence", nil)
+		return
+	}
 	small := engine.Shrink(c, want, func(d *engine.Case) string { return h.judgeAsk(d).key() })
 	sv := h.judgeAsk(small)
 	if sv.key() != want {
@@ -384,7 +390,7 @@ func (h *harness) random() {
 
 func main() {
 	run := hx.Init("C02")
-	h := &harness{run: run, syncCache: map[string]*engine.Observed{}}
+	h := &harness{run: run, syncCache: map[string]*engine.Observed{}, failed: map[string]int{}}
 	if run.ModelPath != "" {
 		m, err := hx.StartModel(run.ModelPath)
 		if err != nil {
